@@ -173,6 +173,52 @@ impl Shape for Large {
     }
 }
 
+/// a wide key (for sets the key is all there is)
+pub struct WideKey;
+impl Shape for WideKey {
+    type K = [u64; 32];
+    type V = u8;
+    const NAME: &'static str = "wide-key";
+    const ALLOCATES: bool = false;
+    const MAX_CLASS: u8 = 255;
+    fn k(c: u8) -> [u64; 32] {
+        [0xABCD_0000 | c as u64; 32]
+    }
+    fn v(c: u8) -> u8 {
+        c
+    }
+    fn kc(k: &[u64; 32]) -> u8 {
+        if k.iter().all(|x| *x == k[0]) {
+            (k[0] & 0xFF) as u8
+        } else {
+            254 // torn key
+        }
+    }
+    fn vc(v: &u8) -> u8 {
+        *v
+    }
+    fn set_v(v: &mut u8, c: u8) {
+        *v = c
+    }
+}
+
+/// ROOMY containers: the same transitions in a container far larger than the model's capacity (the
+/// container VALUE is ~80-130 KiB, beyond any size threshold a "big container" code path might
+/// use); only transitions whose outcome does not depend on the capacity (the model's container is
+/// not full before the call and the call does not overflow)
+pub const ROOMY_MAP: usize = 160;
+pub const ROOMY_SET: usize = 320;
+fn roomy_ok(t: &Value, n: usize) -> bool {
+    let name = t["o"]["name"].as_str().unwrap_or("");
+    if matches!(name, "from_array" | "s_from_array") {
+        return false;
+    }
+    let adding = matches!(name, "insert" | "insert_key_value" | "checked_insert" | "s_insert" | "s_replace" | "from_iter" | "s_from_iter" | "s_extend");
+    let full = t["s"].as_array().map(|a| a.len()).unwrap_or(0) >= n;
+    let refused = t["r"][0] == "panic" || t["r"]["r"] == "panic";
+    !(adding && (full || refused))
+}
+
 thread_local! {
     static CLONES: Cell<u64> = const { Cell::new(0) };
 }
@@ -992,6 +1038,15 @@ pub fn run_shapes(table: &Table, set_mode: bool, rep: &mut Report) -> std::colle
             go!(OwnedKeyPlainVal, edge_map_ok, t, idx, n);
             crate::replay::with_n!(n, edge_tagged, t, idx, rep);
             crate::replay::with_n!(n, edge_dst, t, idx, rep);
+        }
+        if idx % 4 == 0 && roomy_ok(t, n) && max_class(t) <= Large::MAX_CLASS {
+            if set_mode {
+                edge_set::<WideKey, ROOMY_SET>(t, idx, rep);
+            } else {
+                edge_map::<Large, ROOMY_MAP>(t, idx, rep);
+                edge_map::<WideKey, ROOMY_MAP>(t, idx, rep);
+            }
+            *per_shape.entry("roomy (container value of 80-130 KiB)".to_string()).or_insert(0) += 1;
         }
         *rep.op_counts.entry(crate::replay::op_label(&t["o"])).or_insert(0) += 1;
         rep.distinct_states.insert(format!("{n}:{}", t["s"]));
